@@ -322,6 +322,12 @@ def main(argv):
         c.volume = "thorough"   # the shape of the code changed: the tie rests on the correspondence run, so make it the big one
     if c.tier == "thorough":
         coqchk(c)
+    # cross-property instances (Fields/KeyInstances.v plugs the real key functions into the C01 / C06 / C04 tool models);
+    # recorded in the evidence, not one of C10's own obligations (it also depends on other properties' model files)
+    ok_inst, ilog = coq_make(["theories/Fields/KeyInstances.vo"], timeout=900)
+    c.cov["key_instances_for_C01_C06_C04"] = "compiled" if ok_inst else ("FAILED: " + " ".join(ilog.split())[-300:])
+    if not ok_inst:
+        log("  note: Fields/KeyInstances.v did not compile: " + " ".join(ilog.split())[-300:])
     drv, dlog = build_driver("C10")
     impl = hx_bin("hx_fields")
     os.makedirs(SCRATCH, exist_ok=True)
